@@ -141,9 +141,13 @@ package geom
 //@ func Point.DumpCoordinates
 //@   trusted
 //@ func MultiPoint.DumpCoordinates
-//@   trusted
+//@   split m.ctype 0 1 2 3
+//@   ensures result.ctype == m.ctype && NPts(result) <= len(m.points)
+//@   loop 0 invariant -1 <= rangeindex && rangeindex < len(m.points) && ctype == m.ctype && (cap(nonEmpty) == 0 || fresh(nonEmpty)) && len(nonEmpty) % Dim(m.ctype) == 0 && len(nonEmpty) <= (rangeindex + 1) * Dim(m.ctype)
 //@ func MultiPoint.Coordinates
-//@   trusted
+//@   split m.ctype 0 1 2 3
+//@   ensures result.ctype == m.ctype && NPts(result) <= len(m.points)
+//@   loop 0 invariant -1 <= rangeindex && rangeindex < len(m.points) && ctype == m.ctype && (cap(coords) == 0 || fresh(coords)) && len(coords) % Dim(m.ctype) == 0 && len(coords) <= (rangeindex + 1) * Dim(m.ctype)
 //@ func Polygon.DumpCoordinates
 //@   trusted
 //@ func Polygon.Coordinates
@@ -164,7 +168,6 @@ package geom
 //@ func LineString.Centroid
 //@ func MultiLineString.Centroid
 //@ func GeometryCollection.Centroid
-//@   trusted
 //@ func GeometryCollection.pointCentroid
 //@ func GeometryCollection.linearCentroid
 //@ func GeometryCollection.arealCentroid
@@ -426,3 +429,11 @@ package geom
 
 //@ func snapToGridXY
 //@   ensures result != nil
+
+// dimensions are 0, 1 or 2 (collections: the maximum over their members)
+//@ func GeometryCollection.Dimension
+//@   ensures 0 <= result && result <= 2
+//@   loop 0 invariant -1 <= rangeindex && 0 <= dim && dim <= 2
+//@ func highestDimensionIgnoreEmpties
+//@   ensures 0 <= result && result <= 2
+//@   loop 0 invariant -1 <= rangeindex && 0 <= highestDim && highestDim <= 2
